@@ -315,3 +315,86 @@ def rule_const_masks(ctx):
 
 def rule_pure_observers_ts(ctx):
     return rule_pure_observers(ctx, only_timestamps=True)
+
+
+def rule_sketch_structure(ctx):
+    r = RuleResult('SKETCH-structure', 'structural necessary conditions of the estimator clauses: the aging step visits the WHOLE table (iter_mut on the table itself, no '
+                   'sub-slice) and rewrites every slot as (slot >> 1) & RESET_MASK; the table is (re)allocated only when it must grow and only while the '
+                   'estimator is not yet enabled (the enable test is false once frequency_sketch_enabled is set), so recorded counts are never wiped '
+                   'except by aging; frequency()/increment() use depth 4')
+    prog = ctx.prog
+    SK = 'common::frequency_sketch::FrequencySketch'
+    reset = ctx.body(SK + '::reset')
+    # --- whole-table scan
+    n = 0
+    for bi, t in reset.calls():
+        tg, ext, _ = prog.call_targets(reset, t)
+        if ext and ext.split('::')[-1] in ('iter_mut', 'into_iter', 'iter'):
+            leaves = ctx.orig.of_operand(reset, t['args'][0])
+            sliced = sorted(str(l[1]) for l in leaves if l[0] == 'call' and str(l[1]).split('::')[-1] in ('index', 'index_mut', 'get', 'get_mut', 'split_at', 'split_at_mut', 'take', 'skip', 'step_by', 'chunks', 'split_first', 'split_last', 'get_unchecked_mut'))
+            from_table = any(l[0] == 'field' and l[1] == SK and l[2] == 'table' for l in leaves)
+            n += 1
+            r.instance(function=reset.nid, iterates=ext, over_table_field=from_table, sub_slice_ops=sliced)
+            if sliced or not from_table:
+                r.violate(reset.nid, 'aging-partial-scan', ','.join(sliced) or 'not-table', 'the aging step iterates %s: not every estimate is halved' % (sliced or 'something else than self.table'),
+                          where=ctx.where(reset.nid, t.get('line')), expected='for entry in self.table.iter_mut()')
+    if n == 0:
+        r.violate(reset.nid, 'aging-no-scan', 'iter_mut', 'the aging step does not iterate the table', where=ctx.where(reset.nid))
+    sx = ctx.symex(inline_depth=1, loop_visits=2)
+    halved = False
+    for p in sx.run(reset.nid):
+        for e in p.events:
+            if e[0] == 'write' and isinstance(e[2], tuple) and e[2][0] == 'bin' and e[2][1] == 'BitAnd':
+                a, c = e[2][2], e[2][3]
+                shr1 = any(isinstance(x, tuple) and x and x[0] == 'bin' and x[1] == 'Shr' and x[3] == ('c', 1) and x[2] == ctx_load(e[1]) for x in (a, c))
+                mask = any(x == ('static', 'common::frequency_sketch::RESET_MASK') or x == ('c', 0x7777777777777777) for x in (a, c))
+                if shr1 and mask:
+                    halved = True
+    r.instance(function=reset.nid, slot_rewritten_as='(slot >> 1) & RESET_MASK', found=halved)
+    if not halved:
+        r.violate(reset.nid, 'aging-not-halving', 'slot', 'the aging step does not rewrite each slot as (slot >> 1) & RESET_MASK', where=ctx.where(reset.nid))
+    # --- (re)allocation only on growth
+    ens = ctx.body(SK + '::ensure_capacity')
+    sx = ctx.symex(inline_depth=1)
+    for p in sx.run(ens.nid):
+        if p.diverged:
+            continue
+        wr = [e for e in p.events if e[0] == 'write' and isinstance(e[1], tuple) and e[1][0] == 'fld' and e[1][2] == 'table']
+        if not wr:
+            continue
+        grows = any(isinstance(c, tuple) and c[0] == 'cmp' and c[1] == 'le' and v is False and any(isinstance(x, tuple) and x and x[0] == 'len' or (isinstance(x, tuple) and x and x[0] == 'call' and str(x[1]).endswith('::len')) for x in subterms(c[3]))
+                    for c, v in p.conds)
+        r.instance(function=ens.nid, reallocates=True, only_when_growing=grows)
+        if not grows:
+            r.violate(ens.nid, 'realloc-without-growth', 'table', 'ensure_capacity replaces the table on a path where it is not established that the new size is larger: recorded counts are wiped',
+                      where=ctx.where(ens.nid), expected='if self.table.len() >= table_size { return }')
+    # --- enable test false once enabled
+    for nid, b in sorted(prog.bodies.items()):
+        if b.kind == 'closure' or b.locals[0]['ty']['s'] != 'bool':
+            continue
+        reads = [e for e in ctx.eff.direct.get(nid, ()) if e[0] == 'read' and e[2] == 'frequency_sketch_enabled']
+        if not reads:
+            continue
+        sx = ctx.symex(inline_depth=1)
+        for p in sx.run(nid):
+            if p.diverged or p.ret == ('c', False):
+                continue
+            known_off = any(v is False and any(isinstance(x, tuple) and x and x[0] == 'fld' and x[2] == 'frequency_sketch_enabled' for x in subterms(c)) for c, v in p.conds)
+            r.instance(function=nid, may_return_true=fmt(p.ret)[:50], requires_not_enabled=known_off)
+            if not known_off:
+                r.violate(nid, 'enable-test-after-enabled', 'frequency_sketch_enabled', '%s can return true although the estimator is already enabled: ensure_capacity would run again and, on growth, '
+                          'zero all recorded counts' % nid, where=ctx.where(nid), expected='if self.frequency_sketch_enabled { false }')
+    # --- depth 4
+    for fn in ('frequency', 'increment'):
+        b = ctx.body(SK + '::' + fn)
+        ranges = [s['rv'] for _, _, s in b.stmts() if s['st'] == 'assign' and s['rv']['rv'] == 'aggr' and s['rv'].get('kind') == 'adt' and norm(s['rv']['adt']) == 'std::ops::Range']
+        ok = any(rg['ops'][0].get('val') == 0 and rg['ops'][1].get('val') == 4 for rg in ranges)
+        r.instance(function=b.nid, depth_range_0_4=ok)
+        if not ok:
+            r.violate(b.nid, 'sketch-depth', '0..4', '%s does not loop over the 4 counters of a key' % b.nid, where=ctx.where(b.nid))
+    r.require_floor(6, 'sketch structure obligations')
+    return r
+
+
+def ctx_load(key):
+    return key
